@@ -102,15 +102,21 @@ func (p Params) Body() func() {
 		hx.Quiesce()
 		// at quiescence
 		blockedLive, nilReturns := 0, 0
-		for i := 0; i < p.K; i++ {
-			if !res[i].done {
-				if cancelled[i] {
-					hx.Fail("cancelled-wait-still-blocked", "waiter %d's context is cancelled but its Wait has not returned", i)
+		stuck := -1
+		hx.Atomically(func() {
+			for i := 0; i < p.K; i++ {
+				if !res[i].done {
+					if cancelled[i] {
+						stuck = i
+					}
+					blockedLive++
+				} else if res[i].err == nil {
+					nilReturns++
 				}
-				blockedLive++
-			} else if res[i].err == nil {
-				nilReturns++
 			}
+		})
+		if stuck >= 0 {
+			hx.Fail("cancelled-wait-still-blocked", "waiter %d's context is cancelled but its Wait has not returned", stuck)
 		}
 		if p.Broadcast {
 			if blockedLive > 0 {
